@@ -1,5 +1,5 @@
 (* C14 — commutants, anticommutation and commutator graphs are exact (Model/Graph.v), for every n. *)
-From PauLie Require Import Pauli Graph GraphT.
+From PauLie Require Import Pauli PauliBits Graph GraphT GenAllT.
 From Coq Require Import Permutation.
 
 (* the commutant is exactly the set of the 4^n strings commuting with every member, each listed once *)
@@ -41,6 +41,12 @@ Print Assumptions C14_components.
 Theorem C14_pair_counts : forall G, anticommutation_pair G = length (graph_edges G []) /\ pair_count G = (length G * (length G - 1) / 2)%nat.
 Proof. exact pair_counts. Qed.
 Print Assumptions C14_pair_counts.
+
+(* the enumeration the source uses for "all strings of length n" (repeated inc() from the identity, Model/PauliBits.gen_all)
+   is the index-ordered list the commutant and the commutator graph of the model range over, for every n *)
+Theorem C14_enumeration : forall n, gen_all n = all_strs n.
+Proof. exact gen_all_is_all_strs. Qed.
+Print Assumptions C14_enumeration.
 
 Example C14_example :
   commutants 1 [[PX]] = [[PI]; [PX]] /\ graph_edges [[PX;PI]; [PZ;PI]; [PI;PX]] [] = [([PX;PI], [PZ;PI], [PY;PI])] /\
